@@ -663,6 +663,7 @@ func TestConcurrentUse(t *testing.T) {
 	g := genScenario()
 	rec.Check(t, "scenario", ev.N(16, 400), func(rt *rapid.T) {
 		s := g.Draw(rt, "scenario")
+		rec.Begin("scenario", s)
 		rec.Report(rt, "scenario", s, run(s, rec))
 	})
 }
